@@ -55,6 +55,10 @@ def to_lists(r):
 _VALS = {}
 
 
+def any_exception(v):
+    return Exn('raises') if isinstance(v, Exn) else v
+
+
 def impl_lines(fname, args):
     """parse_contents on the lines of a file: the answer computed while the file existed, or - when asked again or in
     another interpreter - a fresh file written and parsed"""
@@ -202,7 +206,8 @@ def run(ctx):
     _VALS.clear()
     for i, r in enumerate(reqs):
         _VALS.setdefault(repr(r[1]), impl_vals[i])
-    bad = ctx.compare('corr:parse_contents', reqs, impl_lines)
+    # the property says of the header errors only that they raise: the class of the exception is not compared
+    bad = ctx.compare('corr:parse_contents', reqs, impl_lines, norm=any_exception)
     _VALS.clear()
     ctx.notes.append('gzip/plain equality and file decoding are checked by execution only (not modelled)')
 
